@@ -19,7 +19,7 @@ Fixpoint dec_digits (fuel : nat) (n : N) (acc : str) : str :=
   | S f => let acc' := (48 + N.modulo n 10)%N :: acc in
            if (n <? 10)%N then acc' else dec_digits f (N.div n 10) acc'
   end.
-Definition n_to_dec (n : N) : str := dec_digits (S (N.to_nat (N.size n))) n [].
+Definition n_to_dec (n : N) : str := dec_digits (S (N.size_nat n)) n [].
 (* strconv.Itoa / %d *)
 Definition z_to_dec (z : Z) : str :=
   match z with
